@@ -83,6 +83,14 @@ fn gen(tier: &str, seed: u64, out: &mut dyn FnMut(String)) {
             out(format!("{op} {} {} {}", TYS[t % 3], tag_off(sa, 1), tag_off(sb, 100)));
         }
     } }
+    // thorough: every vector / matrix / stack pair with lengths up to 4, every operation, tag data
+    if thorough {
+        let mid = vms(1, 4);
+        for sa in &mid { for sb in &mid {
+            if sa.iter().chain(sb.iter()).all(|&d| d <= 3) { continue; }
+            for op in OPS { t += 1; out(format!("{op} {} {} {}", TYS[t % 3], tag_off(sa, 1), tag_off(sb, 100))); }
+        } }
+    }
     // rank-4 operands and one-element operands of every rank (arms: matmul_nd on 4-D, scalar arm of dot)
     for sa in [vec![2, 2, 2, 3], vec![1, 2, 2, 3], vec![2, 1, 3, 2], vec![1, 1, 1, 1], vec![1, 1], vec![1]] {
         for sb in [vec![2, 2, 3, 2], vec![1, 2, 3, 2], vec![3, 2], vec![3], vec![2], vec![1, 1, 1], vec![2, 3, 2]] {
@@ -93,7 +101,7 @@ fn gen(tier: &str, seed: u64, out: &mut dyn FnMut(String)) {
 
     // (iii) seeded random stream, lengths 1..5: conforming by construction
     let mut rng = Rng::new(seed ^ 0x14);
-    let n_rand = if thorough { 30000 } else { 4000 };
+    let n_rand = if thorough { 100000 } else { 8000 };
     for _ in 0..n_rand {
         let (sa, sb) = conforming(&mut rng, 5);
         let op = if rng.below(4) == 0 { *rng.pick(&OPS) } else { *rng.pick(&["matmul", "matmul", "dot", "inner"]) };
@@ -186,5 +194,5 @@ fn nontrivial(_op: &str, args: &[&str]) -> bool {
 
 fn main() {
     harness_main(Spec { prop: "C14", gen, exec, nontrivial, hang_secs: 20,
-        rule: "corpus of defect witnesses; exhaustive: every ordered pair of shapes among vectors [n], matrices [n,m], stacks [s,n,m] with lengths 1..3 x {matmul,dot,vdot,inner,outer} x {tag data, signed pseudo-random data} (element types i32/i64/f64 in rotation quick, all three thorough); every vector/matrix pair with lengths up to 4 (quick) / 5 (thorough) for matmul, dot, inner; rank-4 and one-element operands; + seeded random conforming pairs (lengths 1..5, all arms incl. broadcast stacks) + malformed stream (one axis length off by one, unrelated shapes). distinct = distinct case lines; non-trivial = both operands have more than one element" });
+        rule: "corpus of defect witnesses; exhaustive: every ordered pair of shapes among vectors [n], matrices [n,m], stacks [s,n,m] with lengths 1..3 x {matmul,dot,vdot,inner,outer} x {tag data, signed pseudo-random data} (element types i32/i64/f64 in rotation quick, all three thorough); every vector/matrix pair with lengths up to 4 (quick) / 5 (thorough) for matmul, dot, inner; thorough: every vector/matrix/stack pair with lengths up to 4 x 5 operations (tag data); rank-4 and one-element operands; + seeded random conforming pairs (lengths 1..5, all arms incl. broadcast stacks) + malformed stream (one axis length off by one, unrelated shapes). distinct = distinct case lines; non-trivial = both operands have more than one element" });
 }
